@@ -159,3 +159,51 @@ func MinBE(k *big.Int, w int) []byte {
 	}
 	return BE(k, w)
 }
+
+// SweepScalars lists 0..small-1 and n-near..n+near (exhaustive neighbourhoods
+// of the two ends of the scalar range, where recodings change shape).
+func SweepScalars(n *big.Int, small, near int) []*big.Int {
+	var out []*big.Int
+	for i := 0; i < small; i++ {
+		out = append(out, big.NewInt(int64(i)))
+	}
+	for j := -near; j <= near; j++ {
+		out = append(out, new(big.Int).Add(n, big.NewInt(int64(j))))
+	}
+	return out
+}
+
+// SmallGrid lists the (k, m, n) triples of the exhaustive small neighbourhood
+// used for double-scalar multiplications mG + n(kG): m, n in 0..lim, k in
+// {1, 2, 3, -1, -2}.
+func SmallGrid(lim int64) [][3]int64 {
+	var out [][3]int64
+	for a := int64(0); a <= lim; a++ {
+		for b := int64(0); b <= lim; b++ {
+			for _, k := range []int64{1, 2, 3, -1, -2} {
+				out = append(out, [3]int64{k, a, b})
+			}
+		}
+	}
+	return out
+}
+
+// Coarse maps the fine-grained workload classes to the handful used in
+// finding keys (the fine class stays in the witness detail), so that one root
+// cause does not fan out into dozens of keys.
+func Coarse(class string) string {
+	switch class {
+	case "Q=P":
+		return "Q=P"
+	case "Q=-P", "P+(-P)":
+		return "Q=-P"
+	case "Q=O", "P=O", "O+O", "O":
+		return "identity-operand"
+	case "Q=2P", "Q=-2P", "independent", "split", "aliased-receiver", "projective", "chained", "kG", "lifted",
+		"small", "order-neighbour", "order-multiple", "pow2", "pow2-1", "pow2+1", "all-ones", "max", "random-width",
+		"order-fraction", "limb-edge", "random-reduced", "sparse", "random-even", "random-odd", "pattern",
+		"order+-pow2", "random-full", "wide", "sweep", "entry", "negated-operand", "cneg-operand":
+		return "generic"
+	}
+	return class
+}
